@@ -46,6 +46,8 @@ type letter struct {
 	Evidence string // "" | dupvote:<i> | unknown | lca:<i> | double:<i>
 	Round    *roundSpec // runtime round: ExecutorCommit transactions built from the current runtime state
 	VRF      *vrfSpec   // VRF proofs over the current alpha
+	KM       *kmSpec    // key manager: node re-registrations with an init response, secrets, policy updates
+	Fits     int        // > 0: the proposer's size limit admits exactly the first Fits transactions of the mempool batch
 }
 
 type world struct {
@@ -232,6 +234,9 @@ func (b *bundle) buildBlock(l *letter) *chain.Block {
 	if l.VRF != nil {
 		txs = append(append([]txT{}, txs...), b.vrfTxs(l.VRF)...)
 	}
+	if l.KM != nil {
+		txs = append(append([]txT{}, txs...), b.kmTxs(l.KM)...)
+	}
 	for _, t := range txs {
 		if t.Raw != nil {
 			blk.Txs = append(blk.Txs, t.Raw)
@@ -262,6 +267,12 @@ func (b *bundle) buildBlock(l *letter) *chain.Block {
 			raw = t.Mutate(raw)
 		}
 		blk.Txs = append(blk.Txs, raw)
+	}
+	if l.Fits > 0 {
+		blk.MaxTxBytes = 16384 // consensus.BlockMetadataMaxSize is reserved for the block metadata
+		for i := 0; i < l.Fits && i < len(blk.Txs); i++ {
+			blk.MaxTxBytes += int64(len(blk.Txs[i]))
+		}
 	}
 	return blk
 }
